@@ -22,27 +22,27 @@ func moreProps(m map[string]*propCfg) {
 		}
 		m[p.ID] = p
 	}
-	add(&propCfg{ID: "C03", Engine: "startsim", Level: "exploration", Families: []famShare{{gen.FamSubst, 1}}, QProgs: 400, QK: 10, TProgs: 640, TK: 24,
+	add(&propCfg{ID: "C03", Engine: "startsim", Level: "exploration", Families: []famShare{{gen.FamSubst, 1}}, QProgs: 400, QK: 10, TProgs: 480, TK: 48,
 		Rule: "generated cyclic and acyclic programs with a wrap plan (per substituted component: early only, before-init only, after-init only, before-instantiation, early+after with the same or with different substitutes; 1-2 substituting processors of all order classes); K schedules each. Non-trivial = a substitute was actually returned by a callback in that run; distinct = distinct (program shape, registry path signature)."})
-	add(&propCfg{ID: "C05", Engine: "startsim", Level: "exploration", Families: []famShare{{gen.FamLife, 0.75}, {gen.FamWire, 0.25}}, QProgs: 400, QK: 8, TProgs: 640, TK: 16,
+	add(&propCfg{ID: "C05", Engine: "startsim", Level: "exploration", Families: []famShare{{gen.FamLife, 0.75}, {gen.FamWire, 0.25}}, QProgs: 400, QK: 8, TProgs: 480, TK: 48,
 		Rule: "generated DAGs / diamonds / cycles with tails, lazy-eager mixes, 1-4 observing post-processors of all classes and order classes, runners; K schedules each. Non-trivial = at least two Init events in the run; distinct = distinct (program shape, registry path signature)."})
-	add(&propCfg{ID: "C12", Engine: "startsim", Level: "exploration", Families: []famShare{{gen.FamLife, 0.7}, {gen.FamCfgMerge, 0.3}}, QProgs: 400, QK: 8, TProgs: 640, TK: 16,
+	add(&propCfg{ID: "C12", Engine: "startsim", Level: "exploration", Families: []famShare{{gen.FamLife, 0.7}, {gen.FamCfgMerge, 0.3}}, QProgs: 400, QK: 8, TProgs: 480, TK: 48,
 		Rule: "generated programs with post-processors, runners (and simulated loaders) of all three order classes with Order values incl. ties, negatives and extremes; arrival order at the sorter permuted by the schedule; plus direct calls of the sorter on generated multisets. Non-trivial = >= 2 participants of one kind; distinct = distinct (program shape, registry path signature)."})
-	add(&propCfg{ID: "C13", Engine: "startsim", Level: "fault_enumeration", Families: []famShare{{gen.FamLife, 1}}, QProgs: 400, QK: 6, TProgs: 640, TK: 12,
+	add(&propCfg{ID: "C13", Engine: "startsim", Level: "fault_enumeration", Families: []famShare{{gen.FamLife, 1}}, QProgs: 400, QK: 6, TProgs: 480, TK: 32,
 		Rule: "generated programs with 0-6 runners; K fault-free schedules; on the first three, every runner in turn is made to fail (exhaustive per explored schedule). Non-trivial = at least one runner ran; distinct = distinct (program shape, registry path signature, fault set)."})
-	add(&propCfg{ID: "C14", Engine: "startsim", Level: "exploration", Families: []famShare{{gen.FamClose, 1}}, QProgs: 320, QK: 12, TProgs: 480, TK: 40,
+	add(&propCfg{ID: "C14", Engine: "startsim", Level: "exploration", Families: []famShare{{gen.FamClose, 1}}, QProgs: 320, QK: 12, TProgs: 480, TK: 64,
 		Rule:      "generated programs with 0-12 closers (eager, lazy, named, unnamed); after a successful Run, App.Close runs inside the bubble; every closer parks inside its Close(); the scheduler releases them one at a time in a seed-chosen order, a seed-chosen subset returns errors; invariants are evaluated at every quiescent point. Non-trivial = at least two quiescent points during Close (>= 1 closer parked); distinct = distinct (program shape, release order / fault set hash).",
 		Technique: "deterministic simulation (closesim): App.Close inside a testing/synctest bubble, closers parked in their own callback and released in a seeded order; invariants at every quiescent point (bounded liveness without wall clock)"})
 	add(&propCfg{ID: "C20", Engine: "racesim+linsim", Level: "exploration", Families: []famShare{{gen.FamRace, 1}}, QProgs: 24, QK: 6, TProgs: 64, TK: 12,
 		Rule:      "two engines. racesim: programs with 8-60 components and 1-3 custom tag scanners (N x P scanner goroutines) and closers are started and closed under the Go race detector with the scheduler in parallel mode (tasks are released in waves, harness callbacks do no synchronisation between release and return); in half of the runs several scanner invocations fail in the same round, in the other half a subset of closers fails. linsim: util/sync2.Map, util/list.ConcurrentSets and gcset are compiled from a scratch copy with a yield point before every statement; 2-4 clients issue 2-6 operations each over 1-3 keys with unique values, exactly one client runs at a time and the seeded Chooser decides who continues at every yield; histories are checked with porcupine against a sequential map / set, once with Range as one step and once with Range interleavable. Non-trivial = a racesim run with >= 2 tasks released together, or a linsim history in which operations of different clients overlap; distinct = distinct histories / (program shape, fault set).",
 		Technique: "deterministic simulation: (racesim) real-parallel release of parked scanner / closer goroutines under the Go race detector (happens-before oracle); (linsim) cooperative single-runner scheduling at AST-inserted yield points + porcupine linearizability check against a sequential model"})
-	add(&propCfg{ID: "C11", Engine: "startsim", Level: "exploration", Families: []famShare{{gen.FamEmbed, 1}}, QProgs: 400, QK: 5, TProgs: 600, TK: 8,
+	add(&propCfg{ID: "C11", Engine: "startsim", Level: "exploration", Families: []famShare{{gen.FamEmbed, 1}}, QProgs: 400, QK: 5, TProgs: 480, TK: 24,
 		Rule:      "twin programs: a flat program (wire / func / value / prop / prefix / custom-tagged fields declared directly) and its re-arrangement with the same fields inside anonymous, untagged, by-value embedded structs (depth 1-3, exported and unexported carriers); frame fields of every kind (untagged, unexported-but-tagged, foreign-tagged, inside a named struct field, inside a tagged embedded struct, inside an embedded pointer) carrying sentinels; 0-2 custom tag scanners that park inside the parallel scanning phase. Both twins run under the same picks. Non-trivial = the program has embedded points, frame or custom-tagged fields; distinct = distinct (program shape, registry path signature).",
 		Technique: "deterministic simulation (startsim): twin programs under identical schedules, custom scanners interleaved inside the parallel scanning phase; oracle: twin equivalence + frame sentinels + recording tag processor"})
-	add(&propCfg{ID: "C15", Engine: "startsim", Level: "exploration", Families: []famShare{{gen.FamCfgMerge, 0.8}, {gen.FamConfig, 0.2}}, QProgs: 480, QK: 5, TProgs: 640, TK: 8,
+	add(&propCfg{ID: "C15", Engine: "startsim", Level: "exploration", Families: []famShare{{gen.FamCfgMerge, 0.8}, {gen.FamConfig, 0.2}}, QProgs: 480, QK: 5, TProgs: 480, TK: 24,
 		Rule:      "generated configurations: 1-4 sources (raw documents, real FileLoader on files in the run's scratch directory, real ArgsLoader over a simulated argv, simulated loaders of all order classes) with overlapping and disjoint key trees, added through SetConfigLoader / AddConfigLoader / SetConfig / AddLoaders in a generated order; rare source faults (missing file, directory, garbage, loader error, empty). Non-trivial = >= 2 active fault-free sources; distinct = distinct (program shape, registry path signature).",
 		Technique: "deterministic simulation (startsim, configuration slice): real loaders and binder under generated source sets and option sequences, injected source faults; oracle: reference deep merge in contract order"})
-	add(&propCfg{ID: "C18", Engine: "startsim", Level: "exploration", Families: []famShare{{gen.FamConfig, 1}}, QProgs: 480, QK: 8, TProgs: 640, TK: 12,
+	add(&propCfg{ID: "C18", Engine: "startsim", Level: "exploration", Families: []famShare{{gen.FamConfig, 1}}, QProgs: 480, QK: 8, TProgs: 480, TK: 32,
 		Rule:      "generated components with configuration fields from a fixed menu (placeholder, placeholder with default, prop shorthand, #{${a}+${b}}, #{${a}*${b}}, prefix-bound int/struct, literal), each optionally with a validate constraint from a fixed menu, next to user instantiation-aware processors of all order classes; the arrival order of all processors at the unstable sorter is permuted by the schedule. Non-trivial = the program has an expression or a validated field; distinct = distinct (program shape, registry path signature).",
 		Assumes:   []string{"the value x constraint space is the menu's (small integers, identifiers, min/max/gte/required/eq/ne); the biconditional over arbitrary values and expressions is input generation, outside this technique"},
 		Technique: "deterministic simulation (startsim, configuration slice): schedule permutes the arrival order of built-in and user processors at the sorter; oracle: small menu evaluator (placeholder -> expression -> bind -> validate)"})
@@ -200,9 +200,45 @@ func moreCoverage(pc *propCfg, a *agg, cov map[string]any) {
 	}
 }
 
+// selfAssessMore: reach probes that must be non-zero in a healthy batch (a probe stuck at
+// zero means the workload or fault mix no longer reaches what the check claims to explore).
 func selfAssessMore(pc *propCfg, tier string, a *agg) string {
 	if a.nontrivial == 0 {
 		return "no non-trivial run"
+	}
+	need := func(m map[string]int, keys ...string) string {
+		for _, k := range keys {
+			if m[k] == 0 {
+				return "probe stuck at zero: " + k
+			}
+		}
+		return ""
+	}
+	sumFired := 0
+	for _, v := range a.fired {
+		sumFired += v
+	}
+	switch pc.ID {
+	case "C01", "C03":
+		return need(a.probes, "substitute-returned", "early-reference-produced", "candidate-order-non-canonical")
+	case "C02", "C10":
+		return need(a.probes, "early-reference-produced", "candidate-order-non-canonical", "scheduler-choice-among-several-parked")
+	case "C04":
+		if sumFired == 0 {
+			return "no injected fault fired"
+		}
+		return need(a.probes, "regsim-histories", "early-reference-requested-twice")
+	case "C09", "C13":
+		if sumFired == 0 {
+			return "no injected fault fired"
+		}
+	case "C12":
+		return need(a.probes, "direct-sorter-cases")
+	case "C20":
+		if a.outcomes["ok"]+a.outcomes["error"] == 0 {
+			return "racesim performed no run"
+		}
+		return need(a.probes, "linsim-range-as-one-step", "linsim-range-interleavable", "linsim-history-with-overlapping-operations", "linsim-map-histories", "linsim-set-histories", "linsim-gset-histories")
 	}
 	return ""
 }
